@@ -44,7 +44,7 @@ def c11_jobs(rng, quick):
         contents.append(("aztec", "az" * 3, (23, req)))
     for lv, n in ((0, 5), (2, 60), (5, 300), (8, 40)):
         contents.append(("pdf", "".join(rng.choice("abc DEF") for _ in range(n)), (lv,)))
-    contents += [("c128", "x", ()), ("c128", "A" * 80, ()), ("c39", "", (0, 0)), ("c39", "a b", (1, 1)), ("c93", "A+b", (1, 1)), ("c93", "", (0, 0)),
+    contents += [("c128", "x", ()), ("c128", "A" * 80, ()), ("c39", "", (0, 0)), ("c39", "a b", (1, 1)), ("c93", "A+b", (1, 1)), ("c93", "", (0, 0)), ("c93", "a$%+/z", (1, 1)), ("c93", "$%+/", (0, 1)), ("c39", "a$%+/z", (0, 1)), ("c39", "$%+/-. ", (1, 0)),
                  ("codabar", "AB", ()), ("ean", "1234567", ()), ("ean", "123456789012", ()), ("25", "1", (0,)), ("25", "12", (1,))]
     for k, (sym, content, p) in enumerate(contents):
         c = content if isinstance(content, (bytes, list)) else onedim.U(content)
